@@ -125,8 +125,16 @@ class World:
                 self.axes.append(Axis(vi, v))
         self.order = list(range(len(self.vars)))
 
-    def response(self, weighted=True, **kw):
-        return tab.response(self.pop, self.order, weighted=weighted, **kw)
+    def response(self, weighted=True, assume_weighted=False, **kw):
+        resp = tab.response(self.pop, self.order, weighted=weighted, **kw)
+        if assume_weighted and weighted and self.eng.symbolic:
+            # exclude the measure-zero coincidence "weighted tensor == unweighted tensor" (the library then treats the cube
+            # as unweighted); that path is covered by C01-C03
+            cw = resp["result"]["measures"]["count"]["data"]
+            cu = resp["result"]["counts"]
+            from symx.scalar import Q
+            self.eng.assume(Q.lift(cw[0]) != cu[0], note="the first weighted wire cell differs from its unweighted count (cube is weighted)")
+        return resp
 
     # ---- respondent-level sets for a 2-D slice made of axes (ra, ca) [+ table axis ta with element t]
     def _sib(self, ax_a, ea, ax_b, eb):
